@@ -133,6 +133,12 @@ ThermoClauses(r, b) ==
 ShutterClauses(r, b) ==
   LET d == DecodeShutter(b) IN Cl(r.position = d.position, "C08:position") \o Cl(r.direction = d.direction, "C08:direction")
 
+DisplayFits(zone, now, g) ==
+  LET hm == ParseClock(g.start)
+      D == SeqToSet(g.days)
+      wd == Weekday(zone, now)
+      k == NextRunK(wd, LocalMin(zone, now), 60 * hm[1] + hm[2], D)
+  IN hm # <<>> /\ DayTerm(g.display) = (IF k = 0 THEN <<0>> ELSE IF k = 1 THEN <<1>> ELSE <<2, NextRunDay(wd, k)>>)
 \* listing: one schedule per distinct slot id, each equal to the meaning of a record with that id
 SchedClauses(r, b, zone) ==
   LET n == NRecords(b)
@@ -147,6 +153,10 @@ SchedClauses(r, b, zone) ==
      ELSE Cl(Len(got) = Cardinality(ids), "C10:one-schedule-per-slot-id")
        \o Cl(\A k \in 1..Len(got) : \E j \in 1..n : fits(got[k], recs[j]), "C10:schedule-fields")
        \o Cl(\A x \in ids : \E k \in 1..Len(got) : got[k].id = Decimal(x), "C10:every-slot-listed")
+       \* beyond the listed statements: the display text of a listed schedule is the next-run text of its start and days
+       \o (IF "now" \in DOMAIN r
+           THEN Cl(\A k \in 1..Len(got) : DisplayFits(zone, r.now, got[k]), "X03:display-is-the-next-run-text")
+           ELSE <<>>)
 
 \* C09: "returns a parsed response" - whatever a state query returns was parsed from THIS reply: the reply is at least long
 \* enough to hold the first fields and those fields are the reply's (a response remembered from an earlier exchange is not)
@@ -212,11 +222,13 @@ Step(e, s, rw, sl, ak, ls) ==
     [] e.ev = "Flag" ->
          Res(Cl(e.flag = (s.conn = "open"), "C18:connected-iff-open"), "flag", s, rw, sl)
     [] e.ev = "Call" ->
-         LET ci == CallInfo(e) IN
+         LET ci == IF Supported(s.api, e.op) THEN CallInfo(e) ELSE [arg |-> "unsupported", cmd |-> NoCmd] IN
          Res(Cl(s.pc = "idle", "harness:call-while-busy"), "call-" \o e.op \o "-" \o ci.arg,
-             BeginCall(s, e.op, ci.arg, ci.cmd, BreezeArgs(e), e.clk), rw, sl)
+             BeginCall(s, e.op, ci.arg, ci.cmd, IF ci.arg = "unsupported" THEN NoBreeze ELSE BreezeArgs(e), e.clk), rw, sl)
     [] e.ev = "Write" ->
-         IF s.pc = "login"
+         IF s.pc = "login" /\ s.arg = "unsupported"
+         THEN Res(<<"X01:frame-for-unsupported-operation">>, "write-unsupported", [OnWrite(s) EXCEPT !.free = TRUE], rw, sl)
+         ELSE IF s.pc = "login"
          THEN Res(FrameClauses(s, LoginCmd(s), "login", e.b, e.clk), "write-login", OnWrite(s), rw, sl)
          ELSE IF s.pc = "cmd"
          THEN LET ex == Expect(s) IN
@@ -242,6 +254,9 @@ Step(e, s, rw, sl, ak, ls) ==
          THEN Res(FinishClauses(s, o) \o (IF s.free THEN <<>> ELSE ReturnClauses(s, e, rw))
                   \o (IF s.op = "get_schedules" /\ ls /\ e.out = "return" /\ ~s.free THEN ReadBackClauses(sl, e.r) ELSE <<>>),
                   "ret-" \o e.out \o "-" \o Expect(s).must \o "-" \o Expect(s).why, OnRet(s), rw, sl)
+         ELSE IF s.pc = "login" /\ s.arg = "unsupported"
+         THEN Res(Cl(e.exc = "NotImplementedError", "X01:unsupported-operation-must-raise-notimplementederror"),
+                  "ret-unsupported", OnRet(s), rw, sl)
          ELSE IF s.pc = "login"
          THEN Res(Cl(e.out # "return" /\ s.arg # "ok", "C03:call-ended-before-login"), "ret-before-login", OnRet(s), rw, sl)
          ELSE IF e.out = "cancelled" /\ s.pc \in {"waitlogin", "waitcmd"}
